@@ -77,7 +77,7 @@ fn place_json<'tcx>(tcx: TyCtxt<'tcx>, body: &Body<'tcx>, p: &Place<'tcx>) -> St
         first = false;
         match elem {
             ProjectionElem::Deref => proj.push_str("\"*\""),
-            ProjectionElem::Field(f, _) => {
+            ProjectionElem::Field(f, fty) => {
                 // field name if ADT
                 let bty = base.ty(&body.local_decls, tcx);
                 let name = match bty.ty.kind() {
@@ -87,7 +87,7 @@ fn place_json<'tcx>(tcx: TyCtxt<'tcx>, body: &Body<'tcx>, p: &Place<'tcx>) -> St
                     }
                     _ => String::new(),
                 };
-                let _ = write!(proj, "{{\"f\":{},\"n\":{}}}", f.as_u32(), esc(&name));
+                let _ = write!(proj, "{{\"f\":{},\"n\":{},\"t\":{}}}", f.as_u32(), esc(&name), esc(&fty.to_string()));
             }
             ProjectionElem::Downcast(name, v) => { let _ = write!(proj, "{{\"v\":{},\"n\":{}}}", v.as_u32(), esc(&name.map(|s| s.to_string()).unwrap_or_default())); }
             ProjectionElem::Index(l) => { let _ = write!(proj, "{{\"idx\":{}}}", l.as_u32()); }
